@@ -6,6 +6,7 @@
 -/
 import GoBT.Fee.Model
 import GoBT.Props.C11
+import GoBT.Gen.Limits
 namespace GoBT.C10
 open GoBT GoBT.Fee GoBT.Script
 
@@ -255,5 +256,9 @@ example : changeWith
     .ok ({ version := 1, lockTime := 0, outputs := [{ sats := 945, script := [0x51] }],
            inputs := [ { prevTxID := [], vout := 0, unlocking := none, sequence := 0, prevSats := 1000 } ] }, true) := by
   rfl
+
+/-- ✓gen — bt.DustLimit is the dust limit of the model -/
+theorem dust_limit_matches : GoBT.Gen.intConsts.lookup "bt.DustLimit" = some (dustLimit : Int) := by
+  decide +kernel
 
 end GoBT.C10
